@@ -79,6 +79,24 @@ Theorem C01_inline_repeat_sound : forall env r i, okn env i -> snd i = 1 -> 0 < 
   forall l e, inl_repeat r i = [(l, e)] -> assign_value env l e = Repeat_propagate (snd r) (val env i).
 Proof. exact inl_repeat_sound. Qed.
 
+(* n-ary bitwise chains of ANY arity >= 1 and ANY operand widths: the assign computes the bitwise fold (the simulator builds
+   And/Or/Xor/Nor/Nand2/Nor2/Xor2 structurally; that those ladders compute the same fold is C08) *)
+Theorem C01_inline_nary_sound : forall env o r x t, bitop o = true -> okn env x -> Forall (okn env) t -> 0 < snd r ->
+  forall l e, inl_nary o r (x :: t) = [(l, e)] ->
+  assign_value env l e = trunc (snd r) (fold_left (fun acc n => bop o acc (val env n)) t (val env x)).
+Proof. exact inl_nary_sound. Qed.
+Theorem C01_inline_nnary_sound : forall env o r x t, bitop o = true -> okn env x -> Forall (okn env) t -> 0 < snd r ->
+  forall l e, inl_nnary o r (x :: t) = [(l, e)] ->
+  assign_value env l e = trunc (snd r) (Z.lnot (fold_left (fun acc n => bop o acc (val env n)) t (val env x))).
+Proof. exact inl_nnary_sound. Qed.
+Theorem C01_inline_equal_sound : forall env r a b, okn env a -> okn env b -> 0 < snd r ->
+  forall l e, inl_equal r a b = [(l, e)] -> assign_value env l e = b2z (val env a =? val env b).
+Proof. exact inl_equal_sound. Qed.
+(* guard: 0 <= K < 2^31 (an oversized K compared untruncated is the known finding equalconstant-oversized on the simulator side) *)
+Theorem C01_inline_equalconst_sound : forall env r a v, okn env a -> 0 < snd r -> 0 <= v < 2 ^ 31 ->
+  forall l e, inl_equalconst r a v = [(l, e)] -> assign_value env l e = b2z (val env a =? v).
+Proof. exact inl_equalconst_sound. Qed.
+
 (* BodyReg vs Reg.clock over EVERY input history (d any width, 1-bit enable, any-width reset, |reset_value| < 2^31):
    the value of rq after each edge equals the value Reg.clock prepares for q, provided rq starts equal to the stored
    value truncated (which `reg rq = reset_value` establishes in Verilog; see C01_reg_powerup_refuted for the simulator side) *)
@@ -132,6 +150,10 @@ Print Assumptions C01_inline_signedmul_sound.
 Print Assumptions C01_inline_signextend_sound.
 Print Assumptions C01_inline_concat_sound.
 Print Assumptions C01_inline_repeat_sound.
+Print Assumptions C01_inline_nary_sound.
+Print Assumptions C01_inline_nnary_sound.
+Print Assumptions C01_inline_equal_sound.
+Print Assumptions C01_inline_equalconst_sound.
 Print Assumptions C01_reg_sound_partial.
 Print Assumptions C01_mux2_wide_select_refuted.
 Print Assumptions C01_reg_wide_enable_refuted.
